@@ -889,6 +889,7 @@ def _mutants():
     from selftest.mutate import Mutant as M
     F = "_mc.py"
     return [
+        M("expand-logits-from-probs", "_straight_through.py", "new._param = new.logits = self.logits.expand(batch_shape)", "new._param = new.logits = self.probs.expand(batch_shape)", "expanded[logits]"),
         M("score-term-before-the-control-variate", "_mc.py", "            fb = fb - cvb + c\n        log_pb = self.proposal.log_prob(b)\n        deriv = (fb.detach() * log_pb).mean(0)", "            fb_ = fb - cvb + c\n        else:\n            fb_ = fb\n        log_pb = self.proposal.log_prob(b)\n        deriv = (fb.detach() * log_pb).mean(0)\n        fb = fb_", "score-term-reads-the-corrected-integrand"),
         M("gumbel-logits-stored-raw", "_straight_through.py", "self._param = self.logits = logits.log_softmax(-1)", "self._param = self.logits = logits", "logits-normalised-over-the-event-axis"),
         M("pascal-table-row-stride", "_combinatorics.py", "binom = binom.flatten()[length + count * (length_ + 1)]", "binom = binom.flatten()[length + count * (count_ + 1)]", "flat-index-stride-is-the-column-count"),
